@@ -10,7 +10,7 @@ Grammar (lists; parameters may be constants or expression terms of mc/exprs.py):
             ["ConstB", bytes] ["ConstV", value, sub] ["Pass"] ["Padding", n, pattern] ["Computed", expr]
             ["Tell"] ["Index"] ["Terminated"] ["Check", expr] ["StopIf", expr] ["Error"] ["Seek", at, whence]
   adapters  ["Enum", sub, [[label, value]..]] ["FlagsEnum", sub, [[label, value]..]] ["Mapping", sub, [[key, value]..]]
-            ["OneOf", sub, [values]] ["NoneOf", sub, [values]] ["Hex", sub] ["HexDump", sub]
+            ["OneOf", sub, [values]] ["NoneOf", sub, [values]] ["Hex", sub] ["HexDump", sub] ["Discard", repeater]
   regions   ["Prefixed", lf, sub, includelength] ["PrefixedArray", cf, sub] ["FixedSized", n, sub]
             ["Padded", n, sub, pattern] ["Aligned", m, sub, pattern]
             ["NullTerminated", sub, term, include, consume, require] ["NullStripped", sub, pad] ["OffsettedEnd", k, sub]
@@ -158,6 +158,15 @@ def mk(t):
         return C.Hex(mk(t[1]))
     if k == "HexDump":
         return C.HexDump(mk(t[1]))
+    if k == "Discard":          # the repeater below built with discard=True
+        sub = t[1]
+        if sub[0] == "Array":
+            return C.Array(px(sub[1]), mk(sub[2]), discard=True)
+        if sub[0] == "GreedyRange":
+            return C.GreedyRange(mk(sub[1]), discard=True)
+        if sub[0] == "RepeatUntil":
+            return C.RepeatUntil(mk_pred(sub[1]), mk(sub[2]), discard=True)
+        raise ValueError(t)
     if k == "Prefixed":
         return C.Prefixed(mk(t[1]), mk(t[2]), includelength=t[3])
     if k == "PrefixedArray":
@@ -276,7 +285,7 @@ KNOWN = frozenset("""Int BytesInteger Float VarInt ZigZag Bytes GreedyBytes Flag
 Enum FlagsEnum Mapping ConstB ConstV Pass Padding Computed Tell Index Terminated Check StopIf Error Seek Renamed OneOf NoneOf Hex HexDump
 Prefixed PrefixedArray FixedSized Padded Aligned NullTerminated NullStripped OffsettedEnd Array GreedyRange RepeatUntil Optional Select If
 IfThenElse Switch Rebuild Default ByteSwapped BitsSwapped ProcessXor ProcessRotateLeft Bitwise Bytewise RawCopy Struct Sequence FocusedSeq
-Union LazyStruct LazyArray Lazy Pointer Peek""".split())
+Union LazyStruct LazyArray Lazy Pointer Peek Discard""".split())
 
 
 def sig_of(t, depth=2):
